@@ -401,3 +401,22 @@ spec fn zone_alt(z: TimeZoneRef) -> AlternateTime {
         _ => arbitrary(),
     }
 }
+
+// C06 in a DST-rule zone, stated over ALL start/end instants of the rule (any year): the searched time lies in the gap of the
+// start instant (std -> dst) or end instant (dst -> std) of year yy, and that instant comes after the table
+spec fn rule_gap_cond(q: FindQuery, a: AlternateTime, p0: int, yy: int, is_start: bool) -> bool {
+    let t = if is_start { alt_s(a, yy) } else { alt_e(a, yy) };
+    let before = if is_start { a.std } else { a.dst };
+    let after = if is_start { a.dst } else { a.std };
+    &&& p0 < t
+    &&& t + before.ut_offset <= q_civil(q) < t + after.ut_offset
+}
+
+// position of that instant in the walk of searched year y
+spec fn walk_index(sorted: bool, y: int, yy: int, is_start: bool) -> int {
+    2 * (yy - y + 1) + (if is_start == sorted { 0int } else { 1 })
+}
+
+spec fn same_index(i: int, j: int) -> bool {
+    i == j
+}
